@@ -41,7 +41,7 @@ def plan(tier, seed):
 
 
 def mandatory_bins(tier):
-    return ["step_pairs", "len0", "len1", "len2", "default_start", "split", "type_bytes", "type_bytearray", "type_memoryview", "type_list", "type_iterator", "type_generator", "catalogue_check_value", "long_input", "first_calls_of_the_process_from_concurrent_threads", "same_mutable_object_changed_in_place_and_checksummed_again", "type_memoryview_reversed", "type_memoryview_strided"]
+    return ["step_pairs", "len0", "len1", "len2", "default_start", "split", "type_bytes", "type_bytearray", "type_memoryview", "type_list", "type_iterator", "type_generator", "catalogue_check_value", "long_input", "first_calls_of_the_process_from_concurrent_threads", "same_mutable_object_changed_in_place_and_checksummed_again", "type_memoryview_reversed", "type_memoryview_strided", "checksum_computed_while_another_is_in_progress"]
 
 
 def finish(agg, tier):
@@ -105,6 +105,13 @@ def run_shard(spec, ctx):
         mon.use_tool_id(TOOL, "bvm-crc-yield")
         fname = ns.bec2file.__file__
         codes = [v.__code__ for v in vars(ns.bec2file).values() if isinstance(v, types.FunctionType) and v.__code__.co_filename == fname]
+        # ... and the methods of every class of the module and of the checksum callable's own type, whatever kind of object it is
+        from ..sched import yieldrun
+
+        owners = [v for v in vars(ns.bec2file).values() if isinstance(v, type) and getattr(v, "__module__", None) == ns.bec2file.__name__]
+        if not isinstance(f, types.FunctionType):
+            owners.append(type(f))
+        codes += [c for c in yieldrun.code_objects_of(*owners) if c.co_filename == fname and c not in codes]
         lines = [0]
 
         def on_line(code, line):
@@ -247,6 +254,27 @@ def run_shard(spec, ctx):
                         continue
                     if g != exp:
                         ctx.violation("wrong_value_for_one_shot_iterable", {"type": itname, "len": ln, "start": start, "got": g, "expected": exp}, rp)
+                if ln >= 2:
+                    # re-entrancy: the bytes come from a generator that computes ANOTHER checksum while it is being consumed (a record
+                    # stream whose records carry their own check value): two computations overlap in one thread
+                    inner = []
+                    other = data[cut:] + b"\x5a"
+
+                    def records():
+                        for j, b in enumerate(data):
+                            if j == cut % ln or j == ln - 1:
+                                inner.append(f(other, start ^ 0x1234))
+                            yield b
+
+                    ctx.bin("checksum_computed_while_another_is_in_progress")
+                    ctx.mon("crc8404B", 3)
+                    try:
+                        g = f(records(), start)
+                    except (TypeError, ValueError):
+                        ctx.note("one_shot_iterable_refused")
+                    else:
+                        if g != exp or any(v != ref.crc16(other, start ^ 0x1234) for v in inner):
+                            ctx.violation("wrong_value_when_computations_overlap_in_one_thread", {"len": ln, "outer_got": g, "outer_expected": exp, "inner_got": inner, "inner_expected": ref.crc16(other, start ^ 0x1234)}, rp)
             if got != exp:
                 ctx.violation("string_mismatch", {"len": ln, "start": start, "got": got, "expected": exp, "type": tn}, rp)
             if not (0 <= got < 65536) or not (0 <= mid < 65536):
